@@ -12,7 +12,10 @@ import time
 
 from .tlc import MachineryError, VERIF
 
-EVIDENCE = os.path.join(VERIF, "evidence")
+# evidence committed under /verif/evidence must come from runs against /repo itself: a run against another tree
+# (VERIF_REPO=<scratch worktree>, used for seeded changes) writes its evidence to a scratch directory instead
+EVIDENCE = os.environ.get("VERIF_EVIDENCE_DIR") or (
+    os.path.join(tempfile.gettempdir(), "verif_scratch_evidence") if os.environ.get("VERIF_REPO") else os.path.join(VERIF, "evidence"))
 FINDINGS = os.path.join(VERIF, "known_findings")
 REPLAYS = os.path.join(VERIF, "out", "replays")
 
@@ -167,7 +170,7 @@ class Check:
             "rule": self.rule,
             "samples": self.samples or ["(no sample recorded)"],
             "exhaustive": bool(self.exhaustive),
-            "checker_cmd": " ; ".join(self.checker_cmds[:6]),
+            "checker_cmd": (self.checker_cmds[0] if self.checker_cmds else "") + (" ; ... (%d TLC invocations in all, see tlc_runs)" % len(self.checker_cmds) if len(self.checker_cmds) > 1 else ""),
             "tlc_runs": self.tlc_runs,
             "known_findings_reproduced": self.known_hits,
             "notes": self.notes,
